@@ -136,34 +136,13 @@ inductive SlotConst (f : File) : Slot → ConstVal → Prop
   | field {s k fl d} : s ∈ f.structLikes → s.fields[k]? = some fl → fl.dflt = some d →
       SlotConst f (.field s.name k) d
 
-def findConst (n : Bytes) : List RConstant → Option RConstant
-  | [] => none
-  | c :: r => if c.name = n then some c else findConst n r
-
-def findSL (n : Bytes) : List RStructLike → Option RStructLike
-  | [] => none
-  | c :: r => if c.name = n then some c else findSL n r
-
-def findSvc (n : Bytes) : List RService → Option RService
-  | [] => none
-  | c :: r => if c.name = n then some c else findSvc n r
-
 /-- The resolved nodes stored at a slot of a resolved file. -/
-def RFile.nodesAt (rf : RFile) : Slot → Option (List RNode)
-  | .typedef a => (findTd a rf.typedefs).map (·.nodes)
-  | .const n => (findConst n rf.constants).map (·.nodes)
-  | .field s k => (findSL s rf.structLikes).bind fun r => (r.fields[k]?).map (·.nodes)
-  | .ret s k => (findSvc s rf.services).bind fun r => (r.functions[k]?).map (·.ret)
-  | .arg s k a => (findSvc s rf.services).bind fun r => (r.functions[k]?).bind fun fn => fn.args[a]?
-  | .throw s k a => (findSvc s rf.services).bind fun r => (r.functions[k]?).bind fun fn => fn.throws[a]?
+def RFile.nodesAt (rf : RFile) (s : Slot) : Option (List RNode) := lookupSlot s rf.types
 
 /-- The bindings stored for the constant value at a slot. -/
-def RFile.bindsAt (rf : RFile) : Slot → Option (List (Option Extra))
-  | .const n => (findConst n rf.constants).map (·.binds)
-  | .field s k => (findSL s rf.structLikes).bind fun r => (r.fields[k]?).map (·.binds)
-  | _ => none
+def RFile.bindsAt (rf : RFile) (s : Slot) : Option (List (Option Extra)) := lookupSlot s rf.binds
 
-/-- Base service of service `s`, when written with an include prefix. -/
-def RFile.svcRef (rf : RFile) (s : Bytes) : Option (Option Ref) := (findSvc s rf.services).map (·.ref)
+/-- `Service.Reference` of service `s`. -/
+def RFile.svcRef (rf : RFile) (s : Bytes) : Option (Option Ref) := lookupB s rf.svcRefs
 
 end Sem
